@@ -2,6 +2,7 @@
 import Hw.Topo.History
 import Hw.Topo.InsertWF
 import Hw.Topo.RenderOf
+import Hw.Topo.MiscInsert
 import Driver.Topo
 namespace Driver.HistoryEng
 open Hw.Topo Hw.Topo.Hist Driver
@@ -88,6 +89,33 @@ open Hw.Topo.Restrict in
 def renderAgainst (pred : Tree) (prev new : Dump) : Option String :=
   let tn := gpTable new
   dumpDiff (render pred ⟨prev.flags, prev.filters, prev.allowedCpuset, prev.allowedNodeset⟩ (extraOf tn tn)) new
+
+/-- `OP misc`: the WHOLE dump after the call is predicted by the dump-level model `Hw.Topo.MiscIns.insertMisc` (the model the
+    C02_insert_misc_* theorems are about) and compared for equality; the only input taken from the real result is the
+    gp_index of the new object (next_gp_index is not observable), which must be above every old gp_index -/
+def judgeMiscDump (prev new : Dump) (op : List String) (ret : Option (Int × String)) : List String :=
+  match op with
+  | ["misc", id, name] =>
+    match parseNat id, optStr name with
+    | some id, some name =>
+      let p := id % prev.objs.length
+      let mg := Hw.Topo.MiscIns.maxGp prev
+      let newGp := (new.objs.find? (fun o => !(prev.objs.any (fun p => p.gp == o.gp)))).map (·.gp)
+      match newGp with
+      | none =>
+        let (pd, pr) := Hw.Topo.MiscIns.stepM prev (.misc p name 0)
+        if pr == .einval then
+          (if (match ret with | some c => retMatches pr c | none => false) then [] else ["misc-return-differs-from-dump-model"]) ++
+          (if pd == new then [] else ["misc-state-differs-from-dump-model:" ++ firstDiff pd new])
+        else ["misc-dump-model:no-new-object"]
+      | some g =>
+        if g ≤ mg then ["misc-dump-model:new-gp-not-fresh"] else
+        let (pd, pr) := Hw.Topo.MiscIns.stepM prev (.misc p name (g - mg - 1))
+        (if (match ret with | some c => retMatches pr c | none => false) then [] else ["misc-return-differs-from-dump-model"]) ++
+        (if pd == new then [] else ["misc-state-differs-from-dump-model:" ++
+          (match Hw.Topo.Restrict.dumpDiff pd new with | some s => s | none => "?")])
+    | _, _ => ["misc-op-unparsable"]
+  | _ => ["misc-op-unparsable"]
 
 open Hw.Topo.Restrict in
 /-- `OP misc <objid> <namehex>`: hwloc_topology_insert_misc_object appends the new object at the END of the parent's Misc list;
@@ -187,7 +215,7 @@ def judge (st : St) (new : Dump) : String :=
             (if prev == new then [] else ["modified-on-failure:" ++ firstDiff prev new])
           else []
       let gi := if opname == "group" then judgeGroup prev new st.op st.ret
-                else if opname == "misc" then judgeMisc prev new st.op st.ret else []
+                else if opname == "misc" then judgeMisc prev new st.op st.ret ++ judgeMiscDump prev new st.op st.ret else []
       g ++ p ++ gi
   let rs := r1 ++ r2
   if rs.isEmpty then "OK" else "FAIL " ++ " ".intercalate rs
